@@ -5,10 +5,14 @@ pub trait Suite {
 }
 
 pub mod codec;
+pub mod filestore;
+pub mod logfile;
 
 pub fn make(name: &str) -> Option<Box<dyn Suite>> {
     match name {
         "codec" => Some(Box::new(codec::Codec::new())),
+        "logfile" => Some(Box::new(logfile::LogFile::new())),
+        "filestore" => Some(Box::new(filestore::FileStoreSuite::new())),
         _ => None,
     }
 }
